@@ -1,0 +1,7 @@
+//go:build !verif
+
+package phase2
+
+import "github.com/nulab/autog/internal/graph"
+
+func verifReportExit(int, int, *graph.Edge) {}
